@@ -6,6 +6,7 @@ use crate::report::CaseCtx;
 pub mod common;
 pub mod c01;
 pub mod c02;
+pub mod c03;
 pub mod c07;
 
 pub type Monitor = fn(&mut CaseCtx);
@@ -14,6 +15,7 @@ pub fn lookup(id: &str) -> Option<Monitor> {
     Some(match id {
         "C01" => c01::case,
         "C02" => c02::case,
+        "C03" => c03::case,
         "C07" => c07::case,
         _ => return None,
     })
